@@ -29,6 +29,32 @@ def Fraction.isLong (period : Int) (f : Fraction) : Bool :=
 inductive RunErr | exhausted | noMethod | badAmount
 deriving Repr
 
+/-- an acquisition as the engine sees it -/
+def lotOf (l : InTx) : Lot := ⟨l.ts.us, l.row.toNat, l.price.toNat, l.amount.toNat⟩
+
+/-- the engine's context for a time-sorted lot list and a method schedule -/
+def lotCtx (sched : List (Int × Method)) (lots : List InTx) : Ctx :=
+  { L := fun i => match lots[i]? with
+      | some l => lotOf l
+      | none => ⟨0, 0, 0, 0⟩,
+    bound := fun t => (lots.filter (fun l => decide (l.ts.us ≤ t))).length,
+    meth := fun s => (sched.getD s (0, .fifo)).2 }
+
+/-- taxable events as engine events: instant, schedule slot of the local year, amount, income flag -/
+def engineEvents (sched : List (Int × Method)) : List TaxEv → Option (List Event)
+  | [] => some []
+  | e :: t =>
+    match slotOf sched e.ts.year, engineEvents sched t with
+    | some s, some r => some (⟨e.ts.us, s, e.amount.toNat, e.earn⟩ :: r)
+    | _, _ => none
+
+/-- engine fractions (indices) back to transactions -/
+def decodeFracs (lots : List InTx) (evs : List TaxEv) (fs : List Frac) : List Fraction :=
+  fs.filterMap fun f =>
+    match evs[f.ev]? with
+    | none => none
+    | some e => some { ev := e, lot := f.lot.bind (fun i => lots[i]?), amt := f.amt }
+
 /-- `_create_unfiltered_gain_and_loss_set` on the model engine -/
 def computeFractions (sched : List (Int × Method)) (ins : List InTx) (outs : List OutTx) (intras : List IntraTx) :
     Except RunErr (List Fraction) :=
@@ -36,24 +62,12 @@ def computeFractions (sched : List (Int × Method)) (ins : List InTx) (outs : Li
   let evs := taxableEvents ins outs intras
   -- amounts must be positive for the engine (the code raises a value error otherwise)
   if lots.any (fun l => decide (l.amount ≤ 0)) || evs.any (fun e => decide (e.amount ≤ 0)) then .error .badAmount else
-  match evs.mapM (fun e => (slotOf sched e.ts.year).map (fun s => (⟨e.ts.us, s, e.amount.toNat, e.earn⟩ : Event))) with
+  match engineEvents sched evs with
   | none => .error .noMethod
   | some es =>
-    let lotArr := lots.toArray
-    let ctx : Ctx :=
-      { L := fun i => match lotArr[i]? with
-          | some l => ⟨l.ts.us, l.row.toNat, l.price.toNat, l.amount.toNat⟩
-          | none => ⟨0, 0, 0, 0⟩,
-        bound := fun t => (lots.filter (fun l => decide (l.ts.us ≤ t))).length,
-        meth := fun s => (sched.getD s (0, .fifo)).2 }
-    match runM ctx MSt.init none 0 es with
+    match runM (lotCtx sched lots) MSt.init none 0 es with
     | none => .error .exhausted
-    | some fs =>
-      let evArr := evs.toArray
-      .ok (fs.filterMap fun f =>
-        match evArr[f.ev]? with
-        | none => none
-        | some e => some { ev := e, lot := f.lot.bind (fun i => lotArr[i]?), amt := f.amt })
+    | some fs => .ok (decodeFracs lots evs fs)
 
 /-- `GainLossSet._sort_entries` numbering, as counts over the list cut at the to-date -/
 def cutAt {α} (day : α → Int) (to : Option Int) (l : List α) : List α :=
